@@ -48,6 +48,7 @@ type c06Roles struct {
 	t        *evFrames
 	loops    []*evFrame // goroutine bodies that run the loop
 	loopSnap map[*evFrame]*EvSnapshot
+	isLoop   map[*evFrame]bool
 	names    map[string]string
 }
 
@@ -65,7 +66,7 @@ func c06Resolve(c *Ctx) *c06Roles {
 		return v
 	}
 	p := c.P
-	ro := &c06Roles{p: p, rel: "events/queue", ops: map[*ssa.Function]string{}, loopSnap: map[*evFrame]*EvSnapshot{}}
+	ro := &c06Roles{p: p, rel: "events/queue", ops: map[*ssa.Function]string{}, loopSnap: map[*evFrame]*EvSnapshot{}, isLoop: map[*evFrame]bool{}}
 	ro.pkg = p.ModPath + "/" + ro.rel
 	named := p.Named(ro.rel, "Processor")
 	ro.procT = ro.pkg + ".Processor"
@@ -519,6 +520,29 @@ func (ro *c06Roles) loopFrames(c *Ctx) []*evFrame {
 	return ro.loops
 }
 
+// runsLoop explores the goroutine body started at a go statement (with what the
+// spawning path knew) and reports whether it executes the queue's peek operation.
+func (ro *c06Roles) runsLoop(gf *evFrame, snap *EvSnapshot) bool {
+	if v, ok := ro.isLoop[gf]; ok {
+		return v
+	}
+	type none struct{}
+	x := NewEvExplorer[none](ro.t)
+	found := false
+	x.Instr = func(cx *EvCtx[none], in ssa.Instruction, s none) (none, bool) {
+		if ci, ok := in.(ssa.CallInstruction); ok && ro.isPeek(ci) {
+			found = true
+		}
+		return s, !found
+	}
+	x.ExploreFrom(gf, none{}, snap)
+	if !found && x.Incomplete != "" {
+		found = evReachesCallVia(ro.t, ro.p, gf.fn, ro.isPeek)
+	}
+	ro.isLoop[gf] = found
+	return found
+}
+
 func (ro *c06Roles) spawn(c *Ctx, report bool) {
 	r, p := c.R, c.P
 	e := c.Locks()
@@ -534,12 +558,19 @@ func (ro *c06Roles) spawn(c *Ctx, report bool) {
 				s.token = true
 			}
 		case *ssa.Go:
-			body := staticCallee(v)
-			if body == nil || !evReachesCallVia(ro.t, p, body, ro.isPeek) {
+			// is this the loop goroutine? decided in the context of this go statement:
+			// the body (or what it calls through parameters, method values, seams)
+			// performs the queue's peek operation
+			gf := ro.t.GoFrame(cx.F, v)
+			if gf != nil {
+				if !ro.runsLoop(gf, cx.Snapshot()) {
+					return s, true
+				}
+			} else if body := staticCallee(v); body == nil || !evReachesCallVia(ro.t, p, body, ro.isPeek) {
 				return s, true
 			}
 			nGo++
-			if gf := ro.t.GoFrame(cx.F, v); gf != nil && !seenFrame[gf.fn] {
+			if gf != nil && !seenFrame[gf.fn] {
 				// one frame per goroutine body: the mechanism's values are fields of the
 				// receiver, identical from whichever entry point the loop was started
 				seenFrame[gf.fn] = true
